@@ -13,6 +13,8 @@ std::vector<i64> k_set(i64 period, i64 xmax_abs, bool nonneg_only)
     { ks.push_back(base); ks.push_back(-base); }
   // eight further k per binade (2^j * (1 + i/8) + i): bands of k that contain no power of two
   for( int j = 6; j <= 44; ++j ) for( i64 i = 1; i < 8; ++i ) { i64 base = (1ll << j) + (i << (j - 3)) + i; ks.push_back(base); ks.push_back(-base); }
+  // the largest in-domain turn counts (the boundary of the quantifier |x + k*period| < xmax_abs)
+  { i64 kb = xmax_abs / period; for( i64 d = 0; d <= 4; ++d ) { ks.push_back(kb - d); ks.push_back(-(kb - d)); } }
   std::vector<i64> r;
   for( i64 k : ks )
     {
@@ -86,6 +88,7 @@ void explore09(Options const& o, std::vector<Shim*> const& shims, std::vector<Sh
       int op = fn ? U_COS : U_SIN;
       u64 ob2 = ob | (static_cast<u64>(fn) << 52);
       sweep_un_range(s, op, c.X0, c.X1, o.threads, rec, ob2, [&](i64 x, i64 got, u64 ord, LocalViol& lv) { c.acc(s, fn, x, got, ord, lv); });
+      sweep_alias_histories(s, op, c.X0, c.X1, rec, ob2 | (5ull << 48), [&](i64 x, i64 got, u64 ord, HistViol& hv) { c.acc(s, fn, x, got, ord, hv); });
       // base values on one period
       std::vector<i64> base(static_cast<size_t>(P2));
       s->fm_un_range(op, 0, base.size(), base.data());
@@ -93,7 +96,7 @@ void explore09(Options const& o, std::vector<Shim*> const& shims, std::vector<Sh
       for( size_t ki = 0; ki < ks.size(); ++ki )
         {
         i64 k = ks[ki];
-        if( quick_subset && !(k >= -8 && k <= 8) && (k & (k - 1)) != 0 && ((-k) & (-k - 1)) != 0 ) continue;
+        if( quick_subset && !(k >= -8 && k <= 8) && (k & (k - 1)) != 0 && ((-k) & (-k - 1)) != 0 && (k < 0 ? -k : k) < LIM / P2 - 8 ) continue;
         sweep_un_range(s, op, k * P2, k * P2 + P2 - 1, o.threads, rec, ob2 | (1ull << 48) | (static_cast<u64>(ki) << 20), [&](i64 x, i64 got, u64 ord, LocalViol& lv) {
           i64 rho = x - k * P2; c.period(s, fn, rho, k, base[static_cast<size_t>(rho)], got, ord, lv); }, 65536);
         }
@@ -208,6 +211,7 @@ void explore10(Options const& o, std::vector<Shim*> const& shims, std::vector<Sh
     Shim* s = shims[ci];
     u64 ob = static_cast<u64>(ci) << 56;
     sweep_un_range(s, U_TAN, c.X0, c.X1, o.threads, rec, ob, [&](i64 x, i64 got, u64 ord, LocalViol& lv) { c.acc(s, x, got, ord, lv); });
+    sweep_alias_histories(s, U_TAN, c.X0, c.X1, rec, ob | (5ull << 48), [&](i64 x, i64 got, u64 ord, HistViol& hv) { c.acc(s, x, got, ord, hv); });
     std::vector<i64> base(static_cast<size_t>(PHI));
     s->fm_un_range(U_TAN, 0, base.size(), base.data());
     bool quick_subset = !th && ci >= 2;
@@ -215,7 +219,7 @@ void explore10(Options const& o, std::vector<Shim*> const& shims, std::vector<Sh
     for( size_t ki = 0; ki < ks.size(); ++ki )
       {
       i64 k = ks[ki];
-      if( quick_subset && k > 8 && (k & (k - 1)) != 0 ) continue;
+      if( quick_subset && k > 8 && (k & (k - 1)) != 0 && k < LIM / PHI - 8 ) continue;
       // positive side: period and pole;  negative side: oddness
       const size_t B = 65536; size_t nb = (static_cast<size_t>(PHI) + B - 1) / B;
       parallel_blocks(nb, o.threads, [&](size_t blk, int) {
@@ -285,6 +289,36 @@ void replay10(Options const& o, Shim* s, Recorder& rec)
   else { i64 k = parse_i64(o.rin.at(1)); c.period(s, x, k, s->fm_un(U_TAN, x), s->fm_un(U_TAN, x + k * PHI), 0, d); }
   rec.add_states(1,1,1);
   }
+bool judge09(Shim* s, Recorder& rec, std::string const& kind, std::vector<u64> const& a, u64 value, u64 idx)
+  {
+  if( !(kind == "un" && a.size() == 2 && (a[0] == U_SIN || a[0] == U_COS)) ) return false;
+  C09 c(rec); DirectViol d{rec};
+  int fn = a[0] == U_COS; i64 x = static_cast<i64>(a[1]), got = static_cast<i64>(value);
+  if( x >= -411774 && x <= 411774 )
+    {
+    q128 xq = Q(x); q128 r = fn ? fabsq(remainderq(xq - qpi() / 2, qpi())) : fabsq(remainderq(xq, qpi()));
+    c.X0 = x; c.X1 = x; c.tab[fn].assign(1, accept_interval(fn ? cosq(xq) : sinq(xq), 4 / 65536.0Q + powq(r, 9) / 362880));
+    c.acc(s, fn, x, got, idx, d);
+    }
+  else if( x > -(1ll << 62) && x < (1ll << 62) && (got < -65536 || got > 65536) )
+    rec.viol(c.c_range, idx, [&]{ return ex1(s, fn ? "cos" : "sin", "", {{"x",to_s(x)}}, "in [-65536, 65536]", to_s(got), "acc", {}); });
+  return true;
+  }
+bool judge10(Shim* s, Recorder& rec, std::string const& kind, std::vector<u64> const& a, u64 value, u64 idx)
+  {
+  if( !(kind == "un" && a.size() == 2 && a[0] == U_TAN) ) return false;
+  C10 c(rec); DirectViol d{rec};
+  i64 x = static_cast<i64>(a[1]), got = static_cast<i64>(value);
+  if( x >= -205887 && x <= 205887 ) { c.X0 = x; c.X1 = x; c.tab.assign(1, C10::one(x, nullptr)); c.acc(s, x, got, idx, d); }
+  else if( x > -(1ll << 62) && x < (1ll << 62) )
+    {
+    if( C10::is_pole(x) && !fx_isnan(got) ) rec.viol(c.c_pole_nan, idx, [&]{ return ex1(s, "tan", "pole", {{"x",to_s(x)}}, "NaN", to_s(got), "acc", {}); });
+    if( !C10::is_pole(x) && fx_isnan(got) ) rec.viol(c.c_spurious_nan, idx, [&]{ return ex1(s, "tan", "", {{"x",to_s(x)}}, "not NaN (not a pole)", to_s(got), "acc", {}); });
+    }
+  return true;
+  }
 }
 REGISTER_PROPERTY(C09, explore09, replay09)
+REGISTER_JUDGE(C09, judge09)
+REGISTER_JUDGE(C10, judge10)
 REGISTER_PROPERTY(C10, explore10, replay10)
